@@ -4,9 +4,10 @@ Complete sweep: every row x every column of nsf.nsftable, every row of nsf.nsfta
 every energy-dependent table (plus the derived natural-Lu table), every atom NOT in the table; in
 every configuration of the shared configuration graph (mc/configs.py)."""
 import math, cmath
-from ..common import Acc, load_pt, close, rotate
+from ..common import Acc, load_pt, close, rotate, pmap, chunks, MachineryError
 from ..ref import tables as rt
-from ..configs import QUICK_PATHS, all_paths, apply_event, judged_tables, snippet as _snippet
+from ..configs import (QUICK_PATHS, all_paths, first_paths, full_tables, apply_event, judged_tables, atom_routes,
+                       snippet as _snippet)
 
 META = dict(
     level="model_checking", engine="E1",
@@ -15,20 +16,293 @@ META = dict(
     rule=("every configuration path runs in a fresh forked interpreter; in the end state, for the public table and "
           "every private table on which the neutron group was initialised, each (row, column) cell of the neutron "
           "table, each imaginary-table cell, each energy-table node and each atom absent from the table is "
-          "compared with the independent reader; cells are distinct by construction"),
-    bound=dict(quick="6 configuration paths x all rows/columns/nodes (exhaustive over the tables)",
-               thorough="all configuration paths up to length 4 x all rows/columns/nodes"),
+          "compared with the independent reader; cells are distinct by construction.  "
+          "Configuration events include the optional arguments of the init functions (reload=True from the start, a "
+          "second init, a reload; on private tables and on the public table) and the family first:<kind>: the FIRST "
+          "access to the lazily loaded neutron data of a fresh process goes through an atom of the given kind "
+          "(element, isotope, ion, isotope ion, D, T, D ion, the neutron, an isotope / an element absent from the "
+          "table, a single-isotope element and its isotope, an element without a row of its own, an energy-dependent "
+          "isotope / element / the derived natural Lu, a library computation); the record served by that very access "
+          "is judged against the table row (all columns; all nodes of an energy table) and against what the same "
+          "expression serves later, and the complete sweep follows.  "
+          "Energy-table lookups are made with every argument class at every node: Python float, NumPy scalar, fresh 0-d "
+          "array, list and vector of all nodes, ONE array object (1 element, 0-d, vector) and one list refilled by the "
+          "caller between calls, one array shared by all records, and the same array again after the caller overwrote "
+          "the returned result; the argument must come back unaltered and the results of earlier calls must keep "
+          "their values.  The record of every nuclide is also read through every access route of the table (symbol(), "
+          "name(), isotope(), iteration, D / T, exported names)"),
+    bound=dict(quick="23 configuration paths + 17 first-access kinds x 2 continuations, each x all rows/columns/nodes "
+                     "(exhaustive over the tables); one representative atom per first-access kind",
+               thorough="all configuration paths up to length 4, each option event at every position of every path up to "
+                        "length 3, every first-access kind in front of every base path, x all rows/columns/nodes; and "
+                        "EVERY element, isotope and one ion of each as the first access of a fresh process (own record "
+                        "judged, no sweep)"),
     assumptions=["the embedded table text is the source of truth", "column meaning is taken from the comment block "
                  "above nsftable in nsf.py", "energy -> wavelength conversion of the library is used to address "
-                 "the table nodes (its correctness is C04)"],
+                 "the table nodes (its correctness is C04)",
+                 "the statement names elements and isotopes: what an ion serves is judged only for history independence "
+                 "(the record served at the first access equals the one served later), not against a row",
+                 "mass.init/density.init/nsf.init(table, reload=True) and a repeated init are legal ways to initialise a "
+                 "table; afterwards it serves the embedded tables",
+                 "lists, tuples, 0-d arrays and NumPy scalars are accepted wherever a wavelength vector is (numpy "
+                 "array_like); results are compared by value, their container type is not judged"],
     level_text="complete over the finite domain (364 rows x 11 columns, 16 imaginary rows, 14 energy tables with all "
-               "nodes, all atoms not in the table) in each explored configuration",
+               "nodes, all atoms not in the table) in each explored configuration; call histories on one record are "
+               "bounded (the node walk in table order with one refilled argument object per argument class)",
     level_note="independent reader mc/ref/tables.py; Eu[151] b_c_complex, Pu and Cm element records are excluded "
                "(DESIGN C07 X)",
 )
 
 FIELDS = ("b_c", "bp", "bm", "coherent", "incoherent", "total", "absorption")
 ABS_WL = 1.798
+
+
+def check_row(n, atom, r, imag, bad, code, spin_code):
+    """One record against one row of the neutron table (all columns, the imaginary companion, b_c_complex)."""
+    Z, A = r["Z"], r["A"]
+    cells = 0
+    want = dict((f, r[f]) for f in FIELDS)
+    # the two documented gap fills
+    if r["symbol"] == "Xe" and A == 0 and want["total"] is None:
+        want["total"] = r["coherent"] + r["incoherent"]
+    if r["symbol"] == "Eu" and A == 151 and want["b_c"] is None:
+        want["b_c"] = math.sqrt(r["coherent"] * 100.0 / (4 * math.pi))
+    for f in FIELDS:
+        cells += 1
+        try:
+            got = getattr(n, f)
+        except Exception as e:
+            bad("field-raises:" + f, [Z, A], want[f], "%s: %s" % (type(e).__name__, e), code)
+            continue
+        if not close(got, want[f], 1e-12):
+            bad("field:" + f, [Z, A], want[f], got, code)
+    cells += 1
+    if bool(getattr(n, "is_energy_dependent", None)) != r["E"]:
+        bad("field:is_energy_dependent", [Z, A], r["E"], getattr(n, "is_energy_dependent", None), code)
+    if A != 0:
+        cells += 2
+        got = getattr(n, "abundance", "absent")
+        if not close(got if got != "absent" else None, r["abundance"], 1e-12):
+            bad("field:abundance", [Z, A], r["abundance"], got, code)
+        spin = getattr(atom, "nuclear_spin", "absent")
+        if spin != r["spin"]:
+            bad("field:nuclear_spin", [Z, A], r["spin"], spin, spin_code)
+    # imaginary companion table
+    want_i = imag.get((Z, A), (None, None, None))
+    for f, w in zip(("b_c_i", "bp_i", "bm_i"), want_i):
+        cells += 1
+        got = getattr(n, f, "absent")
+        if got == "absent" or not close(got, w, 1e-12):
+            bad("field:" + f, [Z, A], w, got, code)
+    # complex scattering length
+    if not (r["symbol"] == "Eu" and A == 151):
+        cells += 1
+        got = getattr(n, "b_c_complex", None)
+        want_im = -r["absorption"] / (2000.0 * ABS_WL) if r["absorption"] is not None else None
+        okc = got is not None and want_im is not None and close(complex(got).imag, want_im, 1e-12, 1e-300)
+        if okc and r["b_c"] is not None:
+            okc = close(complex(got).real, r["b_c"], 1e-12)
+        elif okc:
+            okc = math.isnan(complex(got).real)
+        if not okc:
+            bad("field:b_c_complex", [Z, A], (r["b_c"], want_im), got, code)
+    return cells
+
+
+def energy_entries(T, nsf, rows, etab):
+    """[(symbol, A or None, expression, atom, tolerance, [(E, wavelength, tabulated complex length)])] for the 14
+    energy tables and the derived table of natural Lu (abundance mix of the constant Lu-175 and the Lu-176 table)."""
+    out = []
+    for (sym, A), nodes in sorted(etab.items(), key=lambda kv: (kv[0][0], kv[0][1] or 0)):
+        el = getattr(T, sym)
+        atom = el if A is None else el[A]
+        nm = "T.%s" % sym if A is None else "T.%s[%d]" % (sym, A)
+        out.append((sym, A, nm, atom, 1e-11,
+                    [(E, float(nsf.neutron_wavelength(E * 1000.0)), complex(re_, im_)) for (E, re_, im_, ab_) in nodes]))
+    if ("Lu", 176) in etab:
+        r175 = [r for r in rows if r["symbol"] == "Lu" and r["A"] == 175][0]
+        b175 = complex(r175["b_c"], -r175["absorption"] / (2000.0 * ABS_WL))
+        a175, a176 = T.Lu[175].abundance, T.Lu[176].abundance
+        out.append(("Lu", None, "T.Lu", T.Lu, 1e-10,
+                    [(E, float(nsf.neutron_wavelength(E * 1000.0)), (b175 * a175 + complex(re_, im_) * a176) / 100.0)
+                     for (E, re_, im_, ab_) in etab[("Lu", 176)]]))
+    return out
+
+
+def _flat(x):
+    """Values of a result (scalar, 0-d, vector, list) as a list of complex numbers."""
+    import numpy as np
+    return [complex(v) for v in np.asarray(x).reshape(-1)]
+
+
+def _snap(arg):
+    import numpy as np
+    if isinstance(arg, np.ndarray):
+        return (arg.shape, str(arg.dtype), arg.tobytes())
+    if isinstance(arg, list):
+        return list(arg)
+    return repr(arg)
+
+
+def energy_argument_classes(T, label, path, acc, entries):
+    """Lookups at the tabulated energies with every argument class and the call histories a caller-owned argument
+    object allows.  Returns the number of cells (record x argument class)."""
+    import numpy as np
+    cells = 0
+
+    def bad(rule, key, expected, observed, code):
+        acc.violation("%s:%s" % (rule, "public" if label == "public" else "private"),
+                      dict(path=list(path), table=label, key=key, rule=rule),
+                      expected=expected, observed=observed, standalone=_snippet(path, label, code))
+
+    def prelude(nm, wls):
+        return ("import numpy as np\nrec = %s.neutron\nw = %r\n" % (nm, wls))
+
+    def make_call(rec, key, tol, earlier):
+        def call(arg, variant, want, code):
+            """One lookup: values, argument unaltered.  Returns the result object or None."""
+            before = _snap(arg)
+            try:
+                b, sig = rec.scattering_by_wavelength(arg)
+            except Exception as e:
+                bad("energy-lookup-raises:" + variant, key, want[:3], "%s: %s" % (type(e).__name__, e), code)
+                return None
+            if _snap(arg) != before:
+                bad("energy-lookup-alters-argument:" + variant, key, "argument unaltered", repr(arg)[:200], code)
+                return None
+            try:
+                got = _flat(b)          # sigma_s is not part of the statement: not judged here
+            except Exception as e:
+                bad("energy-lookup:" + variant, key, want[:3], "unreadable result %r (%s)" % (b, e), code)
+                return None
+            ok = len(got) == len(want) and all(close(g.real, w.real, tol, 1e-12) and close(g.imag, w.imag, tol, 1e-12)
+                                               for g, w in zip(got, want))
+            if not ok:
+                i = [j for j in range(min(len(got), len(want))) if not close(got[j], want[j], tol, 1e-12)]
+                bad("energy-lookup:" + variant, key, dict(node=i[:1], want=[want[j] for j in i[:1]] or len(want)),
+                    [got[j] for j in i[:1]] or len(got), code)
+                return None
+            earlier.append((b, got))
+            return b
+        return call
+
+    shared = np.empty(1)             # one array object used with every record
+    across = []                      # (call, wavelengths, tabulated values, prelude) of every record
+    for sym, A, nm, atom, tol, nodes in entries:
+        try:
+            rec = atom.neutron
+        except Exception:
+            continue                 # reported by the node sweep
+        wls = [w for _, w, _ in nodes]
+        wants = [b for _, _, b in nodes]
+        key = [sym, A]
+        earlier = []                 # (result object, its values when it was returned)
+
+        call = make_call(rec, key, tol, earlier)
+        P = prelude(nm, wls)
+        # fresh argument objects of every class
+        variants = [
+            ("numpy-scalar", lambda w: np.float64(w), True, "for x in w: print(rec.scattering_by_wavelength(np.float64(x)))"),
+            ("0d-array", lambda w: np.array(w), True, "for x in w: print(rec.scattering_by_wavelength(np.array(x)))"),
+            ("1-element-list", lambda w: [w], True, "for x in w: print(rec.scattering_by_wavelength([x]))"),
+        ]
+        for variant, make, per_node, tail in variants:
+            cells += 1
+            for w, want in zip(wls, wants):
+                if call(make(w), variant, [want], P + tail) is None:
+                    break
+        for variant, arg in (("list-of-all-nodes", list(wls)), ("tuple-of-all-nodes", tuple(wls)),
+                             ("vector-of-all-nodes", np.array(wls)),
+                             ("2d-array-of-all-nodes", np.array(wls + wls).reshape(2, -1))):
+            cells += 1
+            call(arg, variant, wants + wants if variant.startswith("2d") else wants,
+                 P + "print(rec.scattering_by_wavelength(%s))" % dict(list="w", tuple="tuple(w)", vector="np.array(w)")
+                 .get(variant.split("-")[0], "np.array(w + w).reshape(2, -1)"))
+        # ONE argument object, refilled by the caller between the calls
+        cells += 1
+        buf = np.empty(1)
+        for w, want in zip(wls, wants):
+            buf[0] = w
+            if call(buf, "same-array-refilled", [want],
+                    P + "buf = np.empty(1)\nfor x in w:\n    buf[0] = x; print(rec.scattering_by_wavelength(buf))") is None:
+                break
+        cells += 1
+        buf0 = np.array(0.0)
+        for w, want in zip(wls, wants):
+            buf0[()] = w
+            if call(buf0, "same-array-refilled", [want],
+                    P + "buf = np.array(0.0)\nfor x in w:\n    buf[()] = x; print(rec.scattering_by_wavelength(buf))") is None:
+                break
+        cells += 1
+        vec = np.array(wls)
+        code = P + ("buf = np.array(w); print(rec.scattering_by_wavelength(buf))\n"
+                    "buf[:] = buf[::-1].copy(); print(rec.scattering_by_wavelength(buf))\n"
+                    "buf[:] = w[0]; print(rec.scattering_by_wavelength(buf))")
+        if call(vec, "same-array-refilled", wants, code) is not None:
+            vec[:] = vec[::-1].copy()
+            if call(vec, "same-array-refilled", wants[::-1], code) is not None:
+                vec[:] = wls[0]
+                call(vec, "same-array-refilled", [wants[0]] * len(wls), code)
+        cells += 1
+        lst = [wls[0]]
+        for w, want in zip(wls, wants):
+            lst[0] = w
+            if call(lst, "same-list-refilled", [want],
+                    P + "buf = [0.0]\nfor x in w:\n    buf[0] = x; print(rec.scattering_by_wavelength(buf))") is None:
+                break
+        # the same array again after the caller overwrote the RESULT it was given
+        cells += 1
+        vec = np.array(wls)
+        code = P + ("buf = np.array(w); b, s = rec.scattering_by_wavelength(buf); b[...] = 0; s[...] = 0\n"
+                    "print(rec.scattering_by_wavelength(buf)); print(rec.scattering_by_wavelength(np.array(w)))")
+        b = call(vec, "vector-of-all-nodes", wants, code)
+        if b is not None:
+            earlier.pop()
+            try:
+                b[...] = 0
+            except Exception:
+                pass
+            if call(vec, "after-result-overwritten", wants, code) is not None:
+                call(np.array(wls), "after-result-overwritten", wants, code)
+        across.append((call, wls, wants, P, earlier, key))
+    # one array object shared by all records: the first node of every record in turn, then the last node of every record
+    for which in (0, -1):
+        for call, wls, wants, P, earlier, key in across:
+            cells += 1
+            shared[0] = wls[which]
+            call(shared, "same-array-across-records", [wants[which]],
+                 "# one np.empty(1) buffer refilled and passed to the records of all energy tables in turn\n" + P +
+                 "print(rec.scattering_by_wavelength(np.array([w[%d]])))" % which)
+    # results handed out earlier keep their values
+    for call, wls, wants, P, earlier, key in across:
+        cells += 1
+        for obj, vals in earlier:
+            now = _flat(obj)
+            if len(now) != len(vals) or any(not close(x, y, 1e-15, 0.0) for x, y in zip(now, vals)):
+                bad("energy-lookup-rewrites-earlier-result", key, vals[:3], now[:3],
+                    P + "r1 = rec.scattering_by_wavelength(np.array(w))[0]; keep = r1.copy()\n"
+                    "buf = np.empty(1)\nfor x in w:\n    buf[0] = x; rec.scattering_by_wavelength(buf)\nprint((r1 == keep).all())")
+                break
+    return cells
+
+
+def check_nodes(rec, nodes, tol, bad, key, nm, rule="energy-node"):
+    """A record at every node of its table, Python float argument."""
+    cells = 0
+    for (E, wl, want) in nodes:
+        cells += 1
+        code = ("from periodictable import nsf\nprint(%s.neutron.scattering_by_wavelength("
+                "nsf.neutron_wavelength(%r*1000)))" % (nm, E))
+        try:
+            b, sig = rec.scattering_by_wavelength(wl)
+        except Exception as e:
+            bad(rule + "-raises", key + [E], want, "%s: %s" % (type(e).__name__, e), code)
+            continue
+        if not (close(complex(b).real, want.real, tol, 1e-12) and close(complex(b).imag, want.imag, tol, 1e-12)):
+            bad(rule, key + [E], want, complex(b), code)
+        elif rule == "energy-node" and not close(sig, 4 * math.pi / 100.0 * abs(want) ** 2, 1e-10, 1e-12):
+            bad(rule + "-sigma", key + [E], 4 * math.pi / 100.0 * abs(want) ** 2, sig, code)
+    return cells
 
 
 def sweep(pt, T, label, path, acc):
@@ -65,51 +339,7 @@ def sweep(pt, T, label, path, acc):
             continue
         if T[Z].symbol != r["symbol"]:
             bad("row-symbol", [Z, A], r["symbol"], T[Z].symbol, code)
-        want = dict((f, r[f]) for f in FIELDS)
-        # the two documented gap fills
-        if r["symbol"] == "Xe" and A == 0 and want["total"] is None:
-            want["total"] = r["coherent"] + r["incoherent"]
-        if r["symbol"] == "Eu" and A == 151 and want["b_c"] is None:
-            want["b_c"] = math.sqrt(r["coherent"] * 100.0 / (4 * math.pi))
-        for f in FIELDS:
-            cells += 1
-            try:
-                got = getattr(n, f)
-            except Exception as e:
-                bad("field-raises:" + f, [Z, A], want[f], "%s: %s" % (type(e).__name__, e), code)
-                continue
-            if not close(got, want[f], 1e-12):
-                bad("field:" + f, [Z, A], want[f], got, code)
-        cells += 1
-        if bool(getattr(n, "is_energy_dependent", None)) != r["E"]:
-            bad("field:is_energy_dependent", [Z, A], r["E"], getattr(n, "is_energy_dependent", None), code)
-        if A != 0:
-            cells += 2
-            got = getattr(n, "abundance", "absent")
-            if not close(got if got != "absent" else None, r["abundance"], 1e-12):
-                bad("field:abundance", [Z, A], r["abundance"], got, code)
-            spin = getattr(atom, "nuclear_spin", "absent")
-            if spin != r["spin"]:
-                bad("field:nuclear_spin", [Z, A], r["spin"], spin, "print(%s.nuclear_spin)" % name(Z, A))
-        # imaginary companion table
-        want_i = imag.get((Z, A), (None, None, None))
-        for f, w in zip(("b_c_i", "bp_i", "bm_i"), want_i):
-            cells += 1
-            got = getattr(n, f, "absent")
-            if got == "absent" or not close(got, w, 1e-12):
-                bad("field:" + f, [Z, A], w, got, code)
-        # complex scattering length
-        if not (r["symbol"] == "Eu" and A == 151):
-            cells += 1
-            got = getattr(n, "b_c_complex", None)
-            want_im = -r["absorption"] / (2000.0 * ABS_WL) if r["absorption"] is not None else None
-            okc = got is not None and want_im is not None and close(complex(got).imag, want_im, 1e-12, 1e-300)
-            if okc and r["b_c"] is not None:
-                okc = close(complex(got).real, r["b_c"], 1e-12)
-            elif okc:
-                okc = math.isnan(complex(got).real)
-            if not okc:
-                bad("field:b_c_complex", [Z, A], (r["b_c"], want_im), got, code)
+        cells += check_row(n, atom, r, imag, bad, code, "print(%s.nuclear_spin)" % name(Z, A))
     # single-isotope elements report their isotope's record
     for Z, rs in by_z.items():
         if any(r["A"] == 0 for r in rs):
@@ -144,47 +374,168 @@ def sweep(pt, T, label, path, acc):
                 continue
             if has:
                 bad("absent-atom-has-sld", [z, a], False, has, code)
-    # energy-dependent tables: every node returns exactly the tabulated complex length
+    # energy-dependent tables: every node returns exactly the tabulated complex length (natural Lu: the abundance
+    # mix of Lu-175 (constant) and the Lu-176 table)
+    entries = energy_entries(T, nsf, rows, etab)
     lu_nodes = 0
-    for (sym, A), nodes in sorted(etab.items(), key=lambda kv: (kv[0][0], kv[0][1] or 0)):
-        el = getattr(T, sym)
-        atom = el if A is None else el[A]
-        nm = "T.%s" % sym if A is None else "T.%s[%d]" % (sym, A)
-        for (E, re_, im_, ab_) in nodes:
-            cells += 1
-            code = ("from periodictable import nsf\nprint(%s.neutron.scattering_by_wavelength("
-                    "nsf.neutron_wavelength(%r*1000)))" % (nm, E))
-            try:
-                wl = nsf.neutron_wavelength(E * 1000.0)
-                b, sig = atom.neutron.scattering_by_wavelength(float(wl))
-            except Exception as e:
-                bad("energy-node-raises", [sym, A, E], (re_, im_), "%s: %s" % (type(e).__name__, e), code)
-                continue
-            want = complex(re_, im_)
-            if not (close(complex(b).real, re_, 1e-11, 1e-12) and close(complex(b).imag, im_, 1e-11, 1e-12)):
-                bad("energy-node", [sym, A, E], want, complex(b), code)
-            elif not close(sig, 4 * math.pi / 100.0 * abs(want) ** 2, 1e-10, 1e-12):
-                bad("energy-node-sigma", [sym, A, E], 4 * math.pi / 100.0 * abs(want) ** 2, sig, code)
-    # natural Lu: abundance mix of Lu-175 (constant) and the Lu-176 table
-    if ("Lu", 176) in etab:
-        r175 = [r for r in rows if r["symbol"] == "Lu" and r["A"] == 175][0]
-        b175 = complex(r175["b_c"], -r175["absorption"] / (2000.0 * ABS_WL))
-        a175, a176 = T.Lu[175].abundance, T.Lu[176].abundance
-        for (E, re_, im_, ab_) in etab[("Lu", 176)]:
-            cells += 1
-            lu_nodes += 1
-            wl = float(nsf.neutron_wavelength(E * 1000.0))
-            want = (b175 * a175 + complex(re_, im_) * a176) / 100.0
-            code = "from periodictable import nsf\nprint(T.Lu.neutron.scattering_by_wavelength(nsf.neutron_wavelength(%r*1000)))" % E
-            try:
-                b, sig = T.Lu.neutron.scattering_by_wavelength(wl)
-            except Exception as e:
-                bad("lu-mix-raises", ["Lu", None, E], want, "%s: %s" % (type(e).__name__, e), code)
-                continue
-            if not (close(complex(b).real, want.real, 1e-10, 1e-12) and close(complex(b).imag, want.imag, 1e-10, 1e-12)):
-                bad("lu-mix", ["Lu", None, E], want, complex(b), code)
+    for sym, A, nm, atom, tol, nodes in entries:
+        derived = (sym, A) not in etab
+        if derived:
+            lu_nodes = len(nodes)
+        try:
+            rec = atom.neutron
+        except Exception as e:
+            bad("energy-node-raises", [sym, A, nodes[0][0]], nodes[0][2], "%s: %s" % (type(e).__name__, e), "print(%s.neutron)" % nm)
+            continue
+        cells += check_nodes(rec, nodes, tol, bad, [sym, A], nm, "lu-mix" if derived else "energy-node")
+    # the same lookups with every argument class and with caller-owned argument objects reused between calls
+    cells += energy_argument_classes(T, label, path, acc, entries)
+    # the record of every nuclide through every access route of the table
+    cells += sweep_routes(pt, T, label, path, acc)
     acc.info["max_energy_nodes"] = sum(len(v) for v in etab.values()) + lu_nodes
     return cells
+
+
+REC_FIELDS = FIELDS + ("b_c_i", "bp_i", "bm_i", "b_c_complex", "abundance", "is_energy_dependent")
+
+
+def record_values(n):
+    """Everything the statement names, read from one record (an exception is an observation too)."""
+    out = []
+    for f in REC_FIELDS:
+        try:
+            out.append(getattr(n, f, "absent"))
+        except Exception as e:
+            out.append("%s: %s" % (type(e).__name__, e))
+    try:
+        out.append(bool(n.has_sld()))
+    except Exception as e:
+        out.append("%s: %s" % (type(e).__name__, e))
+    t = getattr(n, "nsf_table", None)
+    out.append(None if t is None else [complex(v) for v in t[1]])
+    return out
+
+
+def same_values(a, b):
+    def eq(x, y):
+        if isinstance(x, (str, bool, list)) or isinstance(y, (str, bool, list)) or x is None or y is None:
+            if isinstance(x, list) and isinstance(y, list):
+                return len(x) == len(y) and all(close(u, v, 1e-12, 1e-300) for u, v in zip(x, y))
+            return type(x) == type(y) and x == y
+        return close(x, y, 1e-12, 1e-300)
+    return len(a) == len(b) and all(eq(x, y) for x, y in zip(a, b))
+
+
+def sweep_routes(pt, T, label, path, acc):
+    """The neutron record of every element and nuclide read through every access route of the table (C06 judges that
+    the routes serve the same atom object; here only the record matters): it must carry the values of the record
+    the row sweep read."""
+    cells = 0
+    failed = set()
+    for route, key, expr, canon, thunk in atom_routes(pt, T, label):
+        if route.endswith("*") and tuple(key) in failed:
+            continue
+        cells += 1
+        canon_expr = "T[%d]" % key[0] if len(key) == 1 else "T[%d][%d]" % tuple(key)
+        try:
+            obj = thunk()
+        except Exception:
+            failed.add(tuple(key))
+            continue                      # whether the route exists is C06's question
+        if obj is canon:
+            continue
+        failed.add(tuple(key))
+        try:
+            got, want = record_values(obj.neutron), record_values(canon.neutron)
+        except Exception as e:
+            got, want = "%s: %s" % (type(e).__name__, e), "a record"
+        if isinstance(got, str) or not same_values(got, want):
+            acc.violation("route-serves-other-record:%s:%s" % (route.rstrip("*"), "public" if label == "public" else "private"),
+                          dict(path=list(path), table=label, key=key, rule="route-serves-other-record", route=route),
+                          expected=want, observed=got,
+                          standalone=_snippet(path, label, "print(vars(%s.neutron)); print(vars(%s.neutron))" % (expr, canon_expr)))
+    return cells
+
+
+KIND_CLASS = {"isotope": "isotope", "D": "isotope", "T": "isotope", "absent-isotope": "isotope", "sole-isotope": "isotope",
+              "energy-isotope": "isotope", "ion": "ion", "isotope-ion": "ion", "D-ion": "ion", "library": "library"}
+
+
+def judge_first(pt, first, path, acc, atom=None, expr=None):
+    """The record served by the first neutron access of the process: against what the same expression serves now
+    (history independence, every kind of atom) and, for elements and isotopes, against the table (row, absence, nodes)."""
+    from periodictable import nsf, core
+    kind = first["kind"]
+    klass = KIND_CLASS.get(kind, "element")
+    expr = expr or first["expr"]
+    code = "# (in a fresh interpreter)\nfirst = %s.neutron\nprint(vars(first)); print(vars(%s.neutron))" % ((expr,) * 2)
+    cells = [0]
+
+    def bad(rule, key, expected, observed, _code=None):
+        # one cause, one signature: the rule of the deviating column goes into the case
+        acc.violation("first-access-through-%s-serves-other-record:public" % klass,
+                      dict(path=list(path), table="public", key=key, rule="first-access", kind=kind, column=rule, atom=expr),
+                      expected=expected, observed=observed, standalone=_snippet((), "public", code.replace("P.", "pt.elements.")))
+    if "error" in first:
+        acc.violation("first-access-through-%s-raises:public" % klass,
+                      dict(path=list(path), table="public", key=[kind], rule="first-access", kind=kind, atom=expr),
+                      expected="a neutron record", observed=first["error"],
+                      standalone=_snippet((), "public", code.replace("P.", "pt.elements.")))
+        return 1
+    if klass == "library":
+        acc.outcome("first:library")
+        return 0
+    rec = first["value"]
+    if atom is None:
+        atom = eval(expr, {"P": pt.elements})
+    base = atom.element if isinstance(atom, core.Ion) else atom
+    Z, A = base.number, base.__dict__.get("isotope", 0)
+    key = [Z, A] + ([atom.charge] if isinstance(atom, core.Ion) else [])
+    # (1) the same expression now
+    cells[0] += 1
+    try:
+        later = atom.neutron
+        got, want = record_values(rec), record_values(later)
+    except Exception as e:
+        got, want = "%s: %s" % (type(e).__name__, e), "a record"
+    if isinstance(got, str) or not same_values(got, want):
+        bad("differs-from-later-access", key, want, got)
+        return cells[0]
+    if klass == "ion":
+        return cells[0]
+    # (2) the table
+    rows = rt.neutron_rows()
+    imag = rt.neutron_imag_rows()
+    etab = rt.energy_tables()
+    by_z = {}
+    for r in rows:
+        by_z.setdefault(r["Z"], []).append(r)
+    mine = [r for r in by_z.get(Z, []) if r["A"] == A]
+    if mine:
+        cells[0] += check_row(rec, atom, mine[0], imag, bad, code, code)
+    elif A == 0 and len(by_z.get(Z, [])) == 1:
+        r = by_z[Z][0]                    # single-isotope element: its isotope's record
+        cells[0] += 1
+        for f in FIELDS:
+            g = getattr(rec, f, "absent")
+            if not close(g if g != "absent" else None, r[f], 1e-12):
+                bad("single-isotope-element:" + f, key, r[f], g)
+                break
+    elif A == 0 and by_z.get(Z):
+        pass                              # Pu, Cm: several isotope rows, no element row - not judged
+    else:
+        cells[0] += 1
+        try:
+            has = rec.has_sld()
+        except Exception as e:
+            has = "%s: %s" % (type(e).__name__, e)
+        if has is not False:
+            bad("absent-atom-has-sld", key, False, has)
+    sym = pt.elements[Z].symbol
+    for esym, eA, nm, eatom, tol, nodes in energy_entries(pt.elements, nsf, rows, etab):
+        if esym == sym and (eA or 0) == A:
+            cells[0] += check_nodes(rec, nodes, tol, bad, key, expr, "energy-node-of-first-record")
+    return cells[0]
 
 
 def run_path(args):
@@ -192,17 +543,25 @@ def run_path(args):
     acc = Acc()
     pt = load_pt()
     tables = {}
+    obs = {}
     for ev in path:
         try:
-            apply_event(pt, ev, tables, "c07-%s" % idx)
+            apply_event(pt, ev, tables, "c07-%s" % idx, obs)
         except Exception as e:
             acc.violation("configuration-event-raises:" + ev, dict(path=list(path), event=ev),
                           "no exception", "%s: %s" % (type(e).__name__, e), standalone=_snippet(path, "public", ""))
             return acc
         acc.transitions += 1
-    live = [("public", pt.elements)]
-    if "T_groups" in path:
-        live.append(("T", tables["T"]))
+        if ev.startswith("first:"):
+            if path.index(ev) != 0:
+                raise MachineryError("first-access event not at the start of the path: %r" % (path,))
+            before = len(acc.viol)
+            cells = judge_first(pt, obs["first"], path, acc)
+            acc.states += cells; acc.nontrivial += cells; acc.evaluations += cells
+            acc.outcome("first:" + obs["first"]["kind"])
+            if len(acc.viol) > before:
+                return acc              # do not explore beyond a violating state
+    live = [("public", pt.elements)] + full_tables(path, tables)
     for label, T in judged_tables(path, live):
         cells = sweep(pt, T, label, path, acc)
         acc.states += cells
@@ -215,15 +574,75 @@ def run_path(args):
     return acc
 
 
+def first_atom_child(item):
+    """Forked from a process in which the library is imported and no neutron datum was read yet: the first access goes
+    through the given atom; its own record is judged."""
+    kind, expr = item
+    acc = Acc()
+    pt = load_pt()
+    atom = eval(expr, {"P": pt.elements})
+    first = dict(kind=kind, expr=expr)
+    try:
+        first["value"] = atom.neutron
+    except Exception as e:
+        first["error"] = "%s: %s" % (type(e).__name__, e)
+    cells = judge_first(pt, first, ("first-atom:" + expr,), acc, atom=atom, expr=expr)
+    acc.states += cells; acc.nontrivial += cells; acc.evaluations += cells; acc.transitions += 1
+    acc.count("first_access_atoms")
+    return acc
+
+
+def first_atom_shard(items):
+    pt = load_pt()
+    if "neutron" in pt.elements.properties:
+        raise MachineryError("neutron data already loaded before the first-access shard forks")
+    rt.neutron_rows(); rt.neutron_imag_rows(); rt.energy_tables()
+    if "neutron" in pt.elements.properties:
+        raise MachineryError("the reference readers loaded the neutron data of the public table")
+    acc = Acc()
+    for r in pmap(first_atom_child, items, jobs=1, label="first-atom", always_fork=True):
+        acc.merge(r)
+    return acc
+
+
+def first_atom_items():
+    """Every element, every isotope, and one ion of each element and of one isotope of it, as (kind, expression)."""
+    pt = load_pt()
+    out = []
+    for el in pt.elements:
+        Z = el.number
+        out.append(("element", "P[%d]" % Z))
+        for A in el.isotopes:
+            out.append(("isotope", "P[%d][%d]" % (Z, A)))
+        if el.ions:
+            out.append(("ion", "P[%d].ion[%d]" % (Z, el.ions[0])))
+            if el.isotopes:
+                out.append(("isotope-ion", "P[%d][%d].ion[%d]" % (Z, el.isotopes[len(el.isotopes) // 2], el.ions[-1])))
+    return out
+
+
+def _items_in_fork(_):
+    return first_atom_items()
+
+
 def run(ctx):
-    paths = QUICK_PATHS if ctx.quick else all_paths()
+    paths = (QUICK_PATHS if ctx.quick else all_paths()) + first_paths(ctx.tier)
     ctx.pmap(run_path, rotate(list(enumerate(paths)), ctx.seed))
+    if not ctx.quick:
+        items = pmap(_items_in_fork, [None], jobs=1, always_fork=True)[0]     # the parent never imports the library
+        ctx.acc.info["first_access_atom_space"] = len(items)
+        ctx.pmap(first_atom_shard, chunks(items, max(16, ctx.jobs * 2)))
     ctx.acc.traces = ctx.acc.evaluations
     ctx.acc.info["max_rows"] = len(rt.neutron_rows())
+    ctx.acc.info["configuration_paths"] = len(paths)
 
 
 def replay(ctx, case, signature=None):
-    acc = run_path((7000, tuple(case["path"])))
+    path = tuple(case["path"])
+    if path and path[0].startswith("first-atom:"):
+        acc = pmap(first_atom_shard, [[(case["kind"], case["atom"])]], jobs=1, always_fork=True)[0]
+    else:
+        acc = pmap(run_path, [(7000, path)], jobs=1, always_fork=True)[0]     # a fresh interpreter, as in the run
     for sig, rec in acc.viol.items():
         if rec["case"].get("rule") == case.get("rule") and rec["case"].get("table") == case.get("table"):
             ctx.acc.viol[sig] = rec
